@@ -129,7 +129,7 @@ def variants(case, rng, quick, exhaustive_k=0):
     if case.nbytes <= 3000:
         out.append(("octets", [[s[i:i + 1] for i in range(len(s))] for s in steps]))
     sizes = list(range(2, 18))
-    pick = rng.sample(sizes, 4 if quick else 6) + ([9, 10] if not quick else [rng.choice([9, 10])])
+    pick = rng.sample(sizes, 3 if quick else 6) + ([9, 10] if not quick else [rng.choice([9, 10])])
     for sz in pick:
         out.append(("chunk%d" % sz, [[s[i:i + sz] for i in range(0, len(s), sz)] for s in steps]))
     for _ in range(2 if quick else 3):
@@ -333,7 +333,7 @@ def run(ctx, c05):
     toklines = c05.gen(ctx, L404, c05.ERRBODY, rng=rng)
     if quick:
         # the exhaustive pair part is large: thin it further for this stream (the e2e stream keeps its share)
-        toklines = [l for l in toklines if l.count(" ") > 12 or rng.random() < 0.7]
+        toklines = [l for l in toklines if l.count(" ") > 12 or rng.random() < 0.45]
     spec = special_cases(c05, quick, rng)
     toklines = spec + toklines
     cases = []
@@ -343,10 +343,10 @@ def run(ctx, c05):
         except ValueError as ex:
             ctx.notes.append("inproc-h2-splits: case skipped (%s)" % ex)
     # which cases get all 2^k segmentations of their k most interesting cut points
-    k_ex = 10 if quick else 12
+    k_ex = 9 if quick else 12
     ex_idx = set(range(0, min(len(spec), len(cases)), 5 if quick else 3))
     multi = [i for i, c in enumerate(cases) if i >= len(spec) and len(frame_starts(max(c.steps, key=len))) >= 2]
-    ex_idx |= set(rng.sample(multi, min(len(multi), 10 if quick else 16)))
+    ex_idx |= set(rng.sample(multi, min(len(multi), 6 if quick else 16)))
     lines, meta = [], []          # meta: (case index, kind, same_steps?, marks)
     for i, c in enumerate(cases):
         for kind, segs in variants(c, rng, quick, k_ex if i in ex_idx else 0):
